@@ -85,7 +85,11 @@ void h_prod(void) {
   for (unsigned i = 0; i + 1 < YW; i += 2) {
     uint64_t q = QS[(i / 2) % 4];
     uint64_t c = (uint64_t)((((unsigned __int128)y[i]) << 32) % q);
-    if ((VF_Y[i + 1] & 1) && c + q <= 0xffffffffULL) c += q; /* non-canonical representative */
+    if (VF_Y[i + 1] & 2) {
+      while (c + q <= 0xffffffffULL) c += q; /* the largest representative below 2^32 (worst case for the accumulators) */
+    } else if ((VF_Y[i + 1] & 1) && c + q <= 0xffffffffULL) {
+      c += q; /* a non-canonical representative */
+    }
     y[i + 1] = (uint32_t)c;
   }
 #endif
